@@ -290,3 +290,304 @@ Qed.
 
 Lemma qpair_unique q qh c h h' : qpair q qh -> In (h, c) q -> In (h', c) q -> h' = h.
 Proof. intros Hq H1 H2. apply Hq in H1. apply Hq in H2. congruence. Qed.
+
+(* ------------------------------------------------------------------ *)
+(* I_sched, pointwise *)
+
+Definition loc_ok (H : Z) (x : option Ctx) (e n : option Z) : Prop :=
+  (e <> None -> n <> None -> False)
+  /\ (e <> None \/ n <> None -> x <> None)
+  /\ (forall h, e = Some h -> H <= h)
+  /\ (forall h, n = Some h -> H <= h)
+  /\ (forall rc, x = Some rc -> c_state rc = Running -> e <> None \/ n <> None).
+
+Lemma has_ne {K V} `{EqDec K} (k : K) (m : amap K V) : has k m = true <-> get k m <> None.
+Proof. unfold has. destruct (get k m); split; intros; congruence. Qed.
+
+Lemma I_sched_loc s c : I_sched s ->
+  loc_ok (height s) (get c (ctxs s)) (get c (expq_h s)) (get c (newq_h s)).
+Proof.
+  intros (H1 & H2 & H3 & H4 & H5 & H6 & H7). unfold loc_ok. rewrite <- !has_ne.
+  split; [apply H3|]. split; [apply H4|]. split; [apply H5|]. split; [apply H6|].
+  intros rc E R. rewrite <- !has_ne. eapply H7; eauto.
+Qed.
+
+Lemma Touch_has c s s' c' : Touch c s s' -> c' <> c ->
+  has c' (ctxs s') = has c' (ctxs s) /\ has c' (expq_h s') = has c' (expq_h s)
+  /\ has c' (newq_h s') = has c' (newq_h s).
+Proof. intros [] Hn. unfold has. rewrite t_ctxs0, t_expq_h0, t_newq_h0; auto. Qed.
+
+Lemma I_sched_local c s s' :
+  I_sched s -> Touch c s s' ->
+  qpair (expq s') (expq_h s') -> qpair (newq s') (newq_h s') ->
+  loc_ok (height s) (get c (ctxs s')) (get c (expq_h s')) (get c (newq_h s')) ->
+  I_sched s'.
+Proof.
+  intros (H1 & H2 & H3 & H4 & H5 & H6 & H7) Ht Q1 Q2 (L1 & L2 & L3 & L4 & L5).
+  rewrite <- !has_ne in *.
+  pose proof (t_height _ _ _ Ht) as Eh.
+  unfold I_sched. rewrite Eh.
+  split; [exact Q1|]. split; [exact Q2|].
+  split; [|split; [|split; [|split]]].
+  - intros c'. destruct (eqb_spec c' c) as [->|Hn]; [assumption|].
+    destruct (Touch_has _ _ _ _ Ht Hn) as (_ & -> & ->). apply H3.
+  - intros c'. destruct (eqb_spec c' c) as [->|Hn]; [assumption|].
+    destruct (Touch_has _ _ _ _ Ht Hn) as (-> & -> & ->). apply H4.
+  - intros c'. destruct (eqb_spec c' c) as [->|Hn]; [assumption|].
+    rewrite (t_expq_h _ _ _ Ht) by assumption. apply H5.
+  - intros c'. destruct (eqb_spec c' c) as [->|Hn]; [assumption|].
+    rewrite (t_newq_h _ _ _ Ht) by assumption. apply H6.
+  - intros c'. destruct (eqb_spec c' c) as [->|Hn].
+    + intros rc E R. rewrite !has_ne. eauto.
+    + destruct (Touch_has _ _ _ _ Ht Hn) as (_ & -> & ->).
+      rewrite (t_ctxs _ _ _ Ht) by assumption. apply H7.
+Qed.
+
+Lemma I_sched_SEq s s' : SEq s s' -> I_sched s -> I_sched s'.
+Proof. intros [] H. unfold I_sched in *. now rewrite se_height0, se_ctxs0, se_expq0, se_expq_h0, se_newq0, se_newq_h0. Qed.
+
+(* ------------------------------------------------------------------ *)
+(* I_ctx, pointwise *)
+
+Definition ctx_ok (cfg : Params) (rc : Ctx) (e : bool) : Prop :=
+  1 <= c_timeout rc <= p_max_timeout cfg
+  /\ 0 <= c_counter rc
+  /\ 0 <= c_freq rc < HEIGHT_BOUND
+  /\ (c_rep rc = true -> c_timeout rc <= c_freq rc)
+  /\ (c_rep rc = true -> 0 < c_total rc -> c_counter rc <= c_total rc)
+  /\ (c_rep rc = false ->
+        (c_counter rc = 0 /\ e = false)
+        \/ (c_counter rc = 1 /\ c_state rc = Running /\ e = true))
+  /\ (c_mod rc = 0 \/ c_mod rc = p_cbmod cfg)
+  /\ 0 < c_cap rc.
+
+Lemma I_ctx_get cfg s c rc : I_ctx cfg s -> get c (ctxs s) = Some rc ->
+  ctx_ok cfg rc (has c (expq_h s)) /\ In (EvCtxCreated c) (log s).
+Proof. intros Hi E. specialize (Hi c rc E). unfold ctx_ok. tauto. Qed.
+
+Lemma I_ctx_local cfg c s s' :
+  I_ctx cfg s -> Touch c s s' ->
+  (forall rc, get c (ctxs s') = Some rc ->
+     ctx_ok cfg rc (has c (expq_h s')) /\ In (EvCtxCreated c) (log s')) ->
+  I_ctx cfg s'.
+Proof.
+  intros Hi Ht Hl c' rc' E. destruct (eqb_spec c' c) as [->|Hn].
+  - specialize (Hl rc' E). unfold ctx_ok in Hl. tauto.
+  - rewrite (t_ctxs _ _ _ Ht) in E by assumption.
+    destruct (Touch_has _ _ _ _ Ht Hn) as (_ & -> & _).
+    specialize (Hi c' rc' E). pose proof (t_log _ _ _ Ht (EvCtxCreated c')) as Hl'. tauto.
+Qed.
+
+Lemma I_ctx_SEq cfg s s' : SEq s s' -> I_ctx cfg s -> I_ctx cfg s'.
+Proof.
+  intros Hs Hi. apply (I_ctx_local cfg (0, 0) s s' Hi (SEq_Touch _ _ _ Hs)).
+  destruct Hs. rewrite se_ctxs0, se_expq_h0. intros rc E.
+  destruct (I_ctx_get _ _ _ _ Hi E). auto.
+Qed.
+
+(* ------------------------------------------------------------------ *)
+(* consequences of the invariant for a fresh id and for a due entry *)
+
+Lemma fresh_none cfg s c : Inv cfg s -> ctx_fresh s c ->
+  get c (ctxs s) = None /\ get c (expq_h s) = None /\ get c (newq_h s) = None.
+Proof.
+  intros HI Hf.
+  assert (E : get c (ctxs s) = None).
+  { destruct (get c (ctxs s)) as [rc|] eqn:E; [|reflexivity].
+    exfalso. apply Hf. apply (I_ctx_get _ _ _ _ (inv_ctx _ _ HI) E). }
+  destruct (I_sched_loc s c (inv_sched _ _ HI)) as (_ & L2 & _).
+  rewrite E in L2. split; [exact E|].
+  split.
+  - destruct (get c (expq_h s)); [|reflexivity]. exfalso. apply L2; [left; discriminate|reflexivity].
+  - destruct (get c (newq_h s)); [|reflexivity]. exfalso. apply L2; [right; discriminate|reflexivity].
+Qed.
+
+Lemma Inv_qpairs cfg s : Inv cfg s -> qpair (expq s) (expq_h s) /\ qpair (newq s) (newq_h s).
+Proof. intros HI. destruct (inv_sched _ _ HI) as (H1 & H2 & _). split; assumption. Qed.
+
+Lemma due_exp cfg s c : Inv cfg s -> In (height s, c) (expq s) ->
+  exists rc, get c (ctxs s) = Some rc /\ get c (expq_h s) = Some (height s)
+    /\ get c (newq_h s) = None.
+Proof.
+  intros HI Hin. destruct (Inv_qpairs _ _ HI) as (Q1 & _). apply Q1 in Hin.
+  destruct (I_sched_loc s c (inv_sched _ _ HI)) as (L1 & L2 & _). rewrite Hin in *.
+  destruct (get c (ctxs s)) as [rc|]; [|exfalso; apply L2; [left; discriminate|reflexivity]].
+  exists rc. repeat split.
+  destruct (get c (newq_h s)); [|reflexivity]. exfalso. apply L1; discriminate.
+Qed.
+
+Lemma due_new cfg s c : Inv cfg s -> In (height s, c) (newq s) ->
+  exists rc, get c (ctxs s) = Some rc /\ get c (newq_h s) = Some (height s)
+    /\ get c (expq_h s) = None.
+Proof.
+  intros HI Hin. destruct (Inv_qpairs _ _ HI) as (_ & Q2). apply Q2 in Hin.
+  destruct (I_sched_loc s c (inv_sched _ _ HI)) as (L1 & L2 & _). rewrite Hin in *.
+  destruct (get c (ctxs s)) as [rc|]; [|exfalso; apply L2; [right; discriminate|reflexivity]].
+  exists rc. repeat split.
+  destruct (get c (expq_h s)); [|reflexivity]. exfalso. apply L1; discriminate.
+Qed.
+
+Lemma Inv_wf_sched cfg s : Inv cfg s -> wf (ctxs s) /\ wf (expq_h s) /\ wf (newq_h s).
+Proof. intros HI. pose proof (inv_wf _ _ HI) as Hw. unfold I_wf in Hw. tauto. Qed.
+
+(* ------------------------------------------------------------------ *)
+(* specifications of the context-changing message handlers *)
+
+Lemma is_state_true rc st : is_state rc st = true <-> c_state rc = st.
+Proof. unfold is_state. destruct (c_state rc), st; cbn; split; congruence. Qed.
+
+Lemma is_state_false rc st : is_state rc st = false <-> c_state rc <> st.
+Proof. unfold is_state. destruct (c_state rc), st; cbn; split; congruence. Qed.
+
+Definition new_ctx (svc : Z) (provs : list Z) (cons input capv timeout : Z) (super rep : bool)
+    (freq total thr md : Z) : Ctx :=
+  mkCtx svc provs cons input capv timeout super rep
+    (if rep then (if freq =? 0 then timeout else freq) else 0) (if rep then total else 0)
+    0 0 0 thr true Running thr md.
+
+Definition created (s : State) (c : CtxId) (rc : Ctx) : State :=
+  add_newq (emit (EvCtxCreated c) (put_ctx s c rc)) c (height s).
+
+Lemma create_context_spec cfg s c svc provs cons input cap timeout super rep freq total thr md iok s' :
+  create_context cfg s c svc provs cons input cap timeout super rep freq total thr md iok = Ok s' ->
+  exists capv, 0 < capv /\ timeout <= p_max_timeout cfg
+    /\ (md = 0 \/ (md = p_cbmod cfg /\ valid_request provs timeout rep freq total = true))
+    /\ s' = created s c (new_ctx svc provs cons input capv timeout super rep freq total thr md).
+Proof.
+  unfold create_context. intros H. inv_ok H. subst. exists a.
+  split; [eapply one_base_coin_pos; eauto|]. split; [b2p; assumption|].
+  split; [|reflexivity].
+  apply orb_prop in Hc. destruct Hc as [Hc|Hc]; [left; now apply Z.eqb_eq|right].
+  b2p. auto.
+Qed.
+
+Lemma authorized_spec s c who rc : authorized s c who = Ok rc ->
+  get c (ctxs s) = Some rc /\ c_cons rc = who /\ c_mod rc = 0.
+Proof. unfold authorized. intros H. inv_ok H. subst. b2p. auto. Qed.
+
+Lemma h_pause_spec s c who ok s' : h_pause s c who ok = Ok s' ->
+  exists rc, get c (ctxs s) = Some rc /\ c_cons rc = who /\ c_mod rc = 0
+    /\ c_rep rc = true /\ c_state rc = Running /\ s' = put_ctx s c (setc_state rc Paused).
+Proof.
+  unfold h_pause. intros H. inv_ok H. apply authorized_spec in Ha. destruct Ha as (E & Ew & Em).
+  apply is_state_true in Hc1. subst s'. exists a. auto 8.
+Qed.
+
+Definition started (s : State) (c : CtxId) (rc : Ctx) : State :=
+  let s1 := put_ctx s c (setc_state rc Running) in
+  if negb (has c (expq_h s)) && negb (has c (newq_h s)) then add_newq s1 c (height s) else s1.
+
+Lemma h_start_spec s c who ok s' : h_start s c who ok = Ok s' ->
+  exists rc, get c (ctxs s) = Some rc /\ c_cons rc = who /\ c_mod rc = 0
+    /\ c_state rc = Paused /\ s' = started s c rc.
+Proof.
+  unfold h_start. intros H. inv_ok H. apply authorized_spec in Ha. destruct Ha as (E & Ew & Em).
+  apply is_state_true in Hc0. exists a. repeat split; try assumption.
+  unfold started. sproj.
+  destruct (negb (has c (expq_h s)) && negb (has c (newq_h s))); inv_ok H; now subst.
+Qed.
+
+Lemma h_kill_spec s c who ok s' : h_kill s c who ok = Ok s' ->
+  exists rc, get c (ctxs s) = Some rc /\ c_cons rc = who /\ c_mod rc = 0
+    /\ c_rep rc = true /\ s' = put_ctx s c (setc_state rc Completed).
+Proof.
+  unfold h_kill. intros H. inv_ok H. apply authorized_spec in Ha. destruct Ha as (E & Ew & Em).
+  subst s'. exists a. auto 8.
+Qed.
+
+(* the record written by UpdateRequestContext *)
+Definition upd_ctx (rc : Ctx) (provs : list Z) (capo : option Z) (timeout freq total : Z) : Ctx :=
+  let rc1 := match capo with Some capv => setc_cap rc capv | None => rc end in
+  let t := if timeout =? 0 then c_timeout rc1 else timeout in
+  let f := if freq =? 0 then c_freq rc1 else freq in
+  let rc2 := match provs with [] => rc1 | _ => setc_provs rc1 provs end in
+  let rc3 := if 0 <? t then setc_timeout rc2 t else rc2 in
+  let rc4 := if 0 <? f then setc_freq rc3 f else rc3 in
+  if total =? 0 then rc4 else setc_total rc4 total.
+
+Lemma h_update_ctx_spec cfg s c who provs cap timeout freq total ok s' :
+  h_update_ctx cfg s c who provs cap timeout freq total ok = Ok s' ->
+  exists rc capo, get c (ctxs s) = Some rc /\ c_cons rc = who /\ c_mod rc = 0
+    /\ c_state rc <> Completed
+    /\ (capo = None \/ exists capv, capo = Some capv /\ 0 < capv)
+    /\ 0 <= timeout <= p_max_timeout cfg /\ -1 <= total
+    /\ (if timeout =? 0 then c_timeout rc else timeout) <= (if freq =? 0 then c_freq rc else freq)
+    /\ ~ (1 <= total < c_counter rc)
+    /\ s' = put_ctx s c (upd_ctx rc provs capo timeout freq total).
+Proof.
+  unfold h_update_ctx. intros H. inv_ok H. apply authorized_spec in Ha. destruct Ha as (E & Ew & Em).
+  rename a into rc, a0 into rc1.
+  apply negb_true_iff, is_state_false in Hc1.
+  unfold valid_update in Hc0.
+  assert (Hcap : exists capo, (capo = None \/ exists capv, capo = Some capv /\ 0 < capv)
+             /\ rc1 = match capo with Some capv => setc_cap rc capv | None => rc end).
+  { destruct (coins_empty cap); inv_ok Ha0.
+    - exists None. split; [now left|now subst].
+    - exists (Some a). split; [right; exists a; split; [reflexivity|eapply one_base_coin_pos; eauto]|now subst]. }
+  destruct Hcap as (capo & Hcapo & Erc1).
+  assert (Et : c_timeout rc1 = c_timeout rc) by (subst rc1; destruct capo; reflexivity).
+  assert (Ef : c_freq rc1 = c_freq rc) by (subst rc1; destruct capo; reflexivity).
+  assert (En : c_counter rc1 = c_counter rc) by (subst rc1; destruct capo; reflexivity).
+  exists rc, capo. b2p.
+  split; [assumption|]. split; [assumption|]. split; [assumption|]. split; [assumption|].
+  split; [assumption|]. split; [lia|]. split; [lia|].
+  split; [rewrite <- Et, <- Ef; lia|].
+  split.
+  { rewrite <- En. intros [Hx Hy].
+    match goal with Hz : (_ && _) = false |- _ => apply andb_false_iff in Hz; destruct Hz; b2p; lia end. }
+  subst s'. unfold upd_ctx. rewrite <- Erc1. reflexivity.
+Qed.
+
+Lemma upd_ctx_fixed rc provs capo timeout freq total :
+  let rc' := upd_ctx rc provs capo timeout freq total in
+  c_svc rc' = c_svc rc /\ c_cons rc' = c_cons rc /\ c_input rc' = c_input rc
+  /\ c_super rc' = c_super rc /\ c_rep rc' = c_rep rc /\ c_counter rc' = c_counter rc
+  /\ c_breq rc' = c_breq rc /\ c_bresp rc' = c_bresp rc /\ c_bthr rc' = c_bthr rc
+  /\ c_bdone rc' = c_bdone rc /\ c_state rc' = c_state rc /\ c_thr rc' = c_thr rc
+  /\ c_mod rc' = c_mod rc.
+Proof.
+  unfold upd_ctx. destruct capo, provs, (total =? 0);
+  repeat match goal with |- context [if ?b then _ else _] => destruct b end; cbn; auto 20.
+Qed.
+
+Lemma upd_ctx_terms rc provs capo timeout freq total :
+  let rc' := upd_ctx rc provs capo timeout freq total in
+  let t := if timeout =? 0 then c_timeout rc else timeout in
+  let f := if freq =? 0 then c_freq rc else freq in
+  c_timeout rc' = (if 0 <? t then t else c_timeout rc)
+  /\ c_freq rc' = (if 0 <? f then f else c_freq rc)
+  /\ c_total rc' = (if total =? 0 then c_total rc else total)
+  /\ c_cap rc' = (match capo with Some v => v | None => c_cap rc end).
+Proof.
+  unfold upd_ctx. destruct capo, provs; cbn [setc_cap c_timeout c_freq]; destruct (total =? 0);
+  repeat match goal with |- context [if ?b then _ else _] => destruct b end; cbn; auto.
+Qed.
+
+Lemma respond_spec cfg s r who code out ov ok s' :
+  h_respond cfg s r who code out ov ok = Ok s' ->
+  exists q rc sm rc', get r (reqs s) = Some q /\ get (rid_ctx r) (ctxs s) = Some rc
+    /\ SEq s sm /\ s' = put_ctx sm (rid_ctx r) rc'
+    /\ (rc' = setc_bresp rc (c_bresp rc + 1)
+        \/ rc' = setc_bdone (setc_bresp rc (c_bresp rc + 1)) true).
+Proof.
+  intros H. apply respond_inv in H.
+  destruct H as (q & rc0 & s1 & rc & _ & Hq & Hrc0 & _ & _ & Hset & Hrc & ->).
+  assert (Hs1 : SEq s s1).
+  { destruct Hset as [[_ (sa & Es & Er)]|[_ Ea]].
+    - eapply SEq_trans; [eapply SEq_slash; eauto|eapply SEq_refund_fee; eauto].
+    - eapply SEq_add_earned; eauto. }
+  assert (Hmid : SEq s (resp_mid s1 r who rc0 code out)).
+  { unfold resp_mid. eapply SEq_trans; [exact Hs1|].
+    eapply SEq_trans; [|apply SEq_emit].
+    assert (Hd : SEq s1 (deactivate (set_resps s1 (set r (mkResp who (c_cons rc0) code out) (resps s1))) r)).
+    { eapply SEq_trans; [|apply SEq_deactivate]. seq_auto. }
+    seq_step. }
+  rewrite (se_ctxs _ _ Hmid) in Hrc. assert (rc = rc0) by congruence. subst rc0.
+  exists q, rc. unfold resp_finish.
+  destruct (c_bresp (setc_bresp rc (c_bresp rc + 1)) =? c_breq (setc_bresp rc (c_bresp rc + 1))).
+  - eexists _, _. split; [exact Hq|]. split; [exact Hrc0|].
+    split; [|split; [reflexivity|right; reflexivity]].
+    eapply SEq_trans; [exact Hmid|apply SEq_complete_batch].
+  - eexists _, _. split; [exact Hq|]. split; [exact Hrc0|].
+    split; [exact Hmid|]. split; [reflexivity|left; reflexivity].
+Qed.
